@@ -7,12 +7,19 @@
 
 pub enum Delim { Paren, Brace, Bracket, NoDelim }
 
-/// Abstract token tree: spelling, order and nesting are kept; spans and spacing are dropped.
+/// Abstract token: spelling, order and nesting are kept; spans and spacing are dropped.
+/// A delimited group is written flat as `Open(d) .. Close(d)` (same information as a tree for
+/// well-bracketed sequences; keeps all equalities first-order sequence equalities).
 pub enum Tok {
     Ident(Seq<char>),
     Punct(char),
     Lit(Seq<char>),
-    Group(Delim, Seq<Tok>),
+    Open(Delim),
+    Close(Delim),
+}
+
+pub open spec fn group(d: Delim, inner: Seq<Tok>) -> Seq<Tok> {
+    seq![Tok::Open(d)] + inner + seq![Tok::Close(d)]
 }
 
 #[verifier::external_body]
@@ -52,7 +59,7 @@ impl TokenStream {
 
     #[verifier::external_body]
     pub fn push_group(&mut self, d: Delim, g: TokenStream)
-        ensures final(self)@ == old(self)@.push(Tok::Group(d, g@)),
+        ensures final(self)@ == old(self)@ + group(d, g@),
     { unimplemented!() }
 
     /// `Extend<TokenTree>` / `Extend<TokenStream>`
@@ -67,8 +74,10 @@ impl TokenStream {
     { unimplemented!() }
 }
 
-pub assume_specification [<TokenStream as Clone>::clone] (s: &TokenStream) -> (r: TokenStream)
-    ensures r@ == s@;
+impl Clone for TokenStream {
+    #[verifier::external_body]
+    fn clone(&self) -> (r: Self) ensures r@ == self@ { unimplemented!() }
+}
 
 // ------------------------------------------------------------------ ToTokens
 
@@ -169,8 +178,10 @@ impl Ident {
     { unimplemented!() }
 }
 
-pub assume_specification [<Ident as Clone>::clone] (s: &Ident) -> (r: Ident)
-    ensures r == *s;
+impl Clone for Ident {
+    #[verifier::external_body]
+    fn clone(&self) -> (r: Self) ensures r == *self { unimplemented!() }
+}
 
 impl ToTokens for Ident {
     open spec fn toks(&self) -> Seq<Tok> { seq![Tok::Ident(self.name())] }
@@ -215,8 +226,10 @@ pub struct Node { _p: () }
 impl Node {
     pub uninterp spec fn ntoks(&self) -> Seq<Tok>;
 }
-pub assume_specification [<Node as Clone>::clone] (s: &Node) -> (r: Node)
-    ensures r == *s;
+impl Clone for Node {
+    #[verifier::external_body]
+    fn clone(&self) -> (r: Self) ensures r == *self { unimplemented!() }
+}
 
 pub struct ExprLet { pub pat: Pat, pub expr: Box<Expr>, pub rest: Node }
 pub struct PatIdent { pub ident: Ident, pub rest: Node }
@@ -235,12 +248,23 @@ impl Expr {
     pub uninterp spec fn etoks(&self) -> Seq<Tok>;
 }
 
-pub assume_specification [<Expr as Clone>::clone] (s: &Expr) -> (r: Expr)
-    ensures r == *s;
-pub assume_specification [<Pat as Clone>::clone] (s: &Pat) -> (r: Pat)
-    ensures r == *s;
-pub assume_specification [<PatIdent as Clone>::clone] (s: &PatIdent) -> (r: PatIdent)
-    ensures r == *s;
+// A5: `#[derive(Clone)]` is structural
+impl Clone for Expr {
+    #[verifier::external_body]
+    fn clone(&self) -> (r: Self) ensures r == *self { unimplemented!() }
+}
+impl Clone for Pat {
+    #[verifier::external_body]
+    fn clone(&self) -> (r: Self) ensures r == *self { unimplemented!() }
+}
+impl Clone for PatIdent {
+    #[verifier::external_body]
+    fn clone(&self) -> (r: Self) ensures r == *self { unimplemented!() }
+}
+impl Clone for ExprLet {
+    #[verifier::external_body]
+    fn clone(&self) -> (r: Self) ensures r == *self { unimplemented!() }
+}
 
 impl ToTokens for Expr {
     open spec fn toks(&self) -> Seq<Tok> { self.etoks() }
@@ -259,8 +283,10 @@ impl ToTokens for PatIdent {
 #[verifier::external_body]
 pub struct Type { _p: () }
 impl Type { pub uninterp spec fn ttoks(&self) -> Seq<Tok>; }
-pub assume_specification [<Type as Clone>::clone] (s: &Type) -> (r: Type)
-    ensures r == *s;
+impl Clone for Type {
+    #[verifier::external_body]
+    fn clone(&self) -> (r: Self) ensures r == *self { unimplemented!() }
+}
 impl ToTokens for Type {
     open spec fn toks(&self) -> Seq<Tok> { self.ttoks() }
     open spec fn tokenizable(&self) -> bool { true }
